@@ -1334,6 +1334,18 @@ impl Worterbuch {
             }
         }
 
+        let ls_subscription_keys: Vec<SubscriptionId> = self
+            .ls_subscriptions
+            .keys()
+            .filter(|k| k.client_id == client_id)
+            .map(ToOwned::to_owned)
+            .collect();
+        for subscription in ls_subscription_keys {
+            if let Err(e) = self.do_unsubscribe_ls(&subscription) {
+                error!("Inconsistent ls subscription state: {e}");
+            }
+        }
+
         if let Some(grave_goods) = grave_goods {
             info!(
                 "Burying grave goods of client {client_id} ({}).",
